@@ -18,7 +18,7 @@ mod vp_kani_multi_iter {
         i = 0;
         while i < LB { if b[i] == v { want += 1; } i += 1; }
 
-        let mut it = MultiIter::new(a.into_iter(), b.into_iter());
+        let mut it = MultiIter::new(IntoIterator::into_iter(a), IntoIterator::into_iter(b));
         let mut n = 0usize;
         let mut got = 0usize;
         let mut prev: Option<u8> = None;
